@@ -43,7 +43,7 @@ type C06Case struct {
 var c06Keys = []string{"ka", "kb", "kc"}
 
 func c06Rules() string {
-	s := "rule \"r_who\" \"d\" salience 10\nbegin\n  S(@name)\n  lit(1, 2, 3)\n  if who.Kind == 0 {\n    return who.Id\n  }\nend\n"
+	s := "rule \"r_who\" \"d\" salience 10\nbegin\n  S(@name)\n  lit(1, 2, 3)\n  ix = 0\n  zs = who.Sl[ix]\n  same(zs, who.Id)\n  if who.Kind == 0 {\n    return who.Id\n  }\nend\n"
 	for i, k := range c06Keys {
 		s += fmt.Sprintf("rule \"r_%s\" \"d\" salience %d\nbegin\n  same(%s.Id, who.Id)\n  gatei(who.Id)\n  same(%s.Id, who.Id)\n  %s.Out = who.Id\n  if who.Kind == 0 {\n    return %s.Id\n  }\nend\n", k, 5-i, k, k, k, k)
 	}
@@ -361,7 +361,7 @@ func c06Stress(x *Ctx, c *C06Case, h *poolHarness, names []string) {
 				if (mix>>3)&3 == 1 {
 					keys = append(keys, "kapi")
 				}
-				data := map[string]interface{}{"who": &Payload{Id: id}}
+				data := map[string]interface{}{"who": &Payload{Id: id, Sl: []int64{id}}}
 				pls := map[string]*Payload{}
 				for _, key := range keys {
 					pls[key] = &Payload{Id: id}
